@@ -1,11 +1,11 @@
-\* KernelOutput_check.cfg + every transition of the reachable graph printed once
+\* all interleavings of 1..3 runs, both schemes, with/without an earlier kernel,
+\* atomic and split writes: every invariant must hold
 CONSTANTS MaxRuns = 3
  RunCounts = {1, 2, 3}
  Schemes = {"multiple", "single"}
  Versions = {1, 2}
  PreChoices = {0, 1, 2}
  SplitChoices = {FALSE, TRUE}
- DumpWanted <- DumpQuick
 INIT Init
 NEXT Next
 VIEW View
@@ -16,4 +16,3 @@ INVARIANT SingleStep
 INVARIANT SingleShared
 INVARIANT InvNoPartialVerdict
 INVARIANT TempsRemoved
-ACTION_CONSTRAINT DumpTransition
